@@ -15,6 +15,7 @@ RULE = ("Generated programs with >=1 splitter and conditions (half of them with 
         ">=4 groups must give different assignment vectors. Non-trivial = twin pair whose routed statement has >=2 positive "
         "groups; distinct by (program text, inputs).")
 RULE += (' Since round 7: a missing field among 15 unrelated extra arguments.')
+RULE += (' Since rounds 14-15: callable-valued extras and extras named almost like a field; long salts differing only in tail / head / middle.')
 ASSUMPTIONS = [
     "a missing condition field must raise only when the reference interpreter needs its value on the evaluated path "
     "(short-circuit order of and/or as in Python); a missing splitter field must always raise",
